@@ -30,6 +30,10 @@ func runC16(r *Run, p *Prog) {
 		r.Unresolved("LS", "type Service")
 		return
 	}
+	// BR: the buffered reader the helper goroutines read from belongs to one connection: readers that are pooled,
+	// cached or created anywhere but in the wrapper's constructor can be handed to two connections, whose helper
+	// goroutines then race on it although each connection is used by one goroutine at a time
+	siblingRules(r, p, "C02", []string{"F3"}, "BR")
 	fns := p.FuncsOf(pkgVarlink)
 	ls := ComputeLockSets(p, cg, fns)
 	if ls == nil {
